@@ -6,7 +6,7 @@ import common as C
 from c11_objs import *
 
 PROP = 'C11'
-LEAN_MODULES = ['PMV.Props.C11', 'PMV.Lemmas.PickleReal']
+LEAN_MODULES = ['PMV.Props.C11', 'PMV.Lemmas.PickleReal', 'PMV.Lemmas.PickleEffects']
 PARALLEL = True
 MANIFEST = {
     'text': 'Kernel-checked theorems (PMV/Props/C11.lean) about a code-shaped Lean model of __getstate__/__setstate__ '
@@ -28,16 +28,28 @@ RULE = ('generated objects over classes x dtypes (int8..uint64, float32/64, bool
         '-0.0, subnormal, inf, NaN payloads, random bit patterns) x derivative sets (with/without denominators, own masks, '
         'broadcast) x read-only x every digits/reference option; non-trivial = array-valued object that is not fully masked; '
         'distinct = distinct request line (or case id for oracle-only cases)')
-ASSUMPTIONS = ['bz2, fpzip at full precision and pickle of ndarrays/bytes are lossless (codec contract of the theorems; exercised by the run)',
-               'a float32 array is widened exactly to float64 by NumPy before encoding; restored values are compared as binary64 patterns',
-               'a masked single (Python scalar) value keeps its hidden value instead of the class default (accepted: property silent on rank-0 hidden values)',
-               'derivative masks are not part of the property: a derivative comes back with the parent mask when that is an array',
-               'lossy settings are judged on finite, float32-representable-range values; inf/NaN under lossy settings are unspecified']
-TRUSTED_EXTRA = ['bz2.compress/decompress, fpzip.compress/decompress (full precision), pickle of ndarray/bytes/tuples: lossless (contract)',
+ASSUMPTIONS = ['effect analysis (T2): Qube.clone(recursive=False) returns a new object with fresh empty _derivs_ and _cache_ and does not '
+               'change its receiver; Qube.dtype() is pure (both checked on every generated object); the purity / mutator / alias '
+               'method lists of harness/c11_py2lean.py describe NumPy and the builtins correctly',
+               'bz2, fpzip at full precision and pickle of ndarrays/bytes are lossless (codec contract of the theorems; exercised by the run)',
+               'float32 data: widening to float64 and narrowing back are exact except that a SIGNALLING float32 NaN is quieted by the IEEE '
+               'conversion (generator emits quiet float32 NaNs only); the model works on the widened binary64 patterns, the width is judged by the oracle',
+               'a derivative masked where its object is not loses that mask when the object has a partial array mask (recorded: KF-C11-7)',
+               'lossy settings: finite values are judged within the float32 range for digits=single; inf and NaN must come back as they were']
+TRUSTED_EXTRA = ['harness/c11_py2lean.py: abstract interpreter (tags EXT/SH/NEW) over the AST of __getstate__ and the 17 functions it reaches; '
+                 'anything it does not understand becomes an event that breaks the decide-theorem',
+                 'bz2.compress/decompress, fpzip.compress/decompress (full precision), pickle of ndarray/bytes/tuples: lossless (contract)',
                  'NumPy float32->float64 conversion exact; np.packbits/unpackbits and boolean-mask indexing order as modelled (compared on every run)']
 
 SINGLE_DIGITS = float(np.log10(2 ** 23))
 DOUBLE_DIGITS = float(np.log10(2 ** 52))
+
+
+def regen():
+    """T2: regenerate lean/PMV/Gen/PickleEffects.lean (every statement of __getstate__ and of the functions it
+    reaches that may write to the pickled object) from the source of the installed polymath"""
+    import c11_py2lean
+    return c11_py2lean.regen()
 
 
 # ------------------------------------------------------------------------------------------ real code
@@ -47,6 +59,14 @@ def real_state(q):
 
 def impl(case):
     mode = case['mode']
+    if mode == 'cols':
+        a = np.array(case['rows'], dtype=np.int64).reshape(len(case['rows']), case['isz'])
+        cols = np.require(a.reshape((-1, case['isz'])).swapaxes(0, 1), requirements=['C', 'A'])
+        buf = np.empty((case['isz'], len(case['rows'])), dtype=np.int64)
+        for k, item in enumerate(cols):
+            buf[k] = item
+        back = np.moveaxis(buf, 0, -1).copy().reshape(a.shape)
+        return [[[int(x) for x in c] for c in cols], [[int(x) for x in r] for r in back]]
     try:
         q = build(case)
         st = real_state(q)
@@ -123,6 +143,16 @@ def lossy_problem(x, y, digits, reference):
     """x, y: (n, isz) float64 originals / restored at the elements the encoder saw"""
     if x.size == 0:
         return None
+    fin = np.isfinite(x)
+    if not fin.all():
+        xs, ys = x[~fin], y[~fin]
+        same = (np.isnan(xs) & np.isnan(ys)) | (xs == ys)
+        if not same.all():
+            return 'NONFINITE: %r came back as %r' % (float(xs[~same][0]), float(ys[~same][0]))
+        if not fin.any():
+            return None
+        # the finite part, column structure kept by replacing the rest with a finite original
+        y = np.where(fin, y, 0.); x = np.where(fin, x, 0.)
     err = np.abs(y - x)
     big = float(np.abs(x).max())
     slack = 16 * np.finfo(float).eps * big
@@ -164,6 +194,8 @@ def compare_values(tag, orig, rest, keep, digits, reference, default, hidden_ok=
         return None
     with np.errstate(invalid='ignore', over='ignore'):
         p = lossy_problem(o.astype(np.float64), r.astype(np.float64), digits, reference)
+    if p and p.startswith('NONFINITE'):
+        return (tag + ':lossy-nonfinite:%s' % (reference if isinstance(reference, str) else 'num'), tag + ': ' + p)
     return (tag + ':lossy:%s:%s' % (digits if isinstance(digits, str) else 'num', reference if isinstance(reference, str) else 'num'),
             tag + ': ' + p) if p else None
 
@@ -198,14 +230,15 @@ def compare(case, q, r):
     p = compare_values('values', qv, rv, ~m, digits, reference, q._default_)
     if p:
         return p
-    if m.any() and q._shape_ != ():
+    if m.any():
         isz = int(np.prod(q._item_, dtype=int))
         under = np.ascontiguousarray(rv).reshape((-1, isz))[m.ravel()]
         dflt = np.broadcast_to(np.asarray(q._default_), q._item_).reshape(-1)
         hidden = np.ascontiguousarray(qv).reshape((-1, isz))[m.ravel()]
         ok = (under == dflt).all(axis=1)
         if not ok.all():
-            return ('default-under-mask', 'a masked element came back as %s, class default is %s' % (under[~ok][0].tolist(), dflt.tolist()))
+            return ('default-under-mask' + ('' if isinstance(q._values_, np.ndarray) else ':single'),
+                    'a masked element came back as %s, class default is %s' % (under[~ok][0].tolist(), dflt.tolist()))
     for k, d in q._derivs_.items():
         e = r._derivs_[k]
         if type(e) is not type(d):
@@ -220,15 +253,52 @@ def compare(case, q, r):
         p = compare_values('deriv-values', full_vals(d), full_vals(e), keep, dd, dr, d._default_)
         if p:
             return p
+    # a derivative is an object too: wherever it comes back masked it holds its default
+    for k, d in q._derivs_.items():
+        e = r._derivs_[k]
+        em = exp_mask(e)
+        if em.any():
+            isz = int(np.prod(e._item_, dtype=int))
+            under = np.ascontiguousarray(full_vals(e)).reshape((-1, isz))[em.ravel()]
+            dflt = np.broadcast_to(np.asarray(d._default_), d._item_).reshape(-1)
+            ok = (under == dflt).all(axis=1)
+            if not ok.all():
+                return ('deriv-default-under-mask' + ('' if isinstance(d._values_, np.ndarray) else ':single'),
+                        'derivative %s: a masked element came back as %s, default is %s' % (k, under[~ok][0].tolist(), dflt.tolist()))
+    # a derivative is an object too: where the parent is unmasked its own mask must survive
+    for k, d in q._derivs_.items():
+        e = r._derivs_[k]
+        dm, em = exp_mask(d), exp_mask(e)
+        diff = (dm != em) & ~m
+        if diff.any():
+            if ((dm & ~em) == diff).all() and isinstance(q._mask_, np.ndarray) and m.any() and not m.all():
+                return ('deriv-mask:own-mask-dropped', 'derivative %s is masked at %d element(s) where the object is not; '
+                        'it came back with the object\'s mask, unmasked there' % (k, int(diff.sum())))
+            return ('deriv-mask', 'the mask of derivative %s changed at an unmasked element of the object' % k)
+    # with the default (lossless) settings float data keeps its width
+    for name, key, a, b in [('values', None, q._values_, r._values_)] + \
+            [('derivative ' + k, k, d._values_, r._derivs_[k]._values_) for k, d in q._derivs_.items()]:
+        if isinstance(a, np.ndarray) and a.dtype.kind == 'f' and eff_digits(case, q, key)[0] == 'double' \
+                and not np.all(exp_mask(q)) and not (key is not None and np.all(exp_mask(q._derivs_[key]))):
+            if not isinstance(b, np.ndarray) or b.dtype != a.dtype:
+                return ('values:float-width', '%s: %s data came back as %s (same values, another width)'
+                        % (name, a.dtype, getattr(b, 'dtype', type(b).__name__)))
     return None
 
 
 def oracle(case):
+    if case['mode'] == 'cols':
+        return None
     try:
         q = build(case)
     except Exception as e:
         return None                         # not an object of the library: nothing to judge
     before = snapshot(q)
+    # the two contracts the effect analysis (c11_py2lean.py) relies on, checked on this object
+    c = q.clone(recursive=False)
+    q.dtype()
+    if c is q or c._derivs_ is q._derivs_ or c._cache_ is q._cache_ or c._derivs_ or snapshot(q) != before:
+        return ('contract:clone', 'clone(recursive=False) / dtype() changed the object or returned shared _derivs_/_cache_ dicts')
     try:
         if case['mode'] == 'legacy':
             st = strip_int_dtype(q.__getstate__())
@@ -236,7 +306,11 @@ def oracle(case):
         else:
             data = pickle.dumps(q)
     except Exception as e:
-        return ('dumps-raises:' + type(e).__name__, 'pickle.dumps raised %s: %s' % (type(e).__name__, str(e)[:200]))
+        tag = ''
+        if case.get('digits') is not None and any(isinstance(o._values_, np.ndarray) and o._values_.dtype.kind == 'f'
+                                                   and not np.isfinite(o._values_).all() for o in [q] + list(q._derivs_.values())):
+            tag = ':lossy-nonfinite'
+        return ('dumps-raises:' + type(e).__name__ + tag, 'pickle.dumps raised %s: %s' % (type(e).__name__, str(e)[:200]))
     if snapshot(q) != before:
         after = snapshot(q)
         keys = [k for k in set(before) | set(after) if before.get(k) != after.get(k)]
@@ -265,8 +339,10 @@ FLOAT_DISTS = ['normal', 'const', 'smooth', 'wide', 'zeros', 'negzero', 'subnorm
 LOSSY_DISTS = ['normal', 'const', 'smooth', 'offset', 'uniform', 'moderate', 'withzeros']
 INT_DISTS = ['full', 'small', 'const', 'extremes', 'zeros']
 SMALL_SHAPES = [[], [1], [3], [0], [2, 3], [3, 0], [1, 1], [4, 5], [2, 3, 2], [2, 1, 2, 1, 2], [2, 2, 2, 2, 2, 2]]
-EDGE_SHAPES = [[199], [200], [201], [10, 20], [3, 67], [14, 15], [2, 3, 2, 3, 2, 3], [5, 41], [2, 2, 2, 2, 2, 7]]
-BIG_SHAPES = [[300], [20, 30], [7, 8, 9], [2, 3, 4, 5, 6], [40, 41]]
+EDGE_SHAPES = [[199], [200], [201], [10, 20], [3, 67], [14, 15], [2, 3, 2, 3, 2, 3], [5, 41], [2, 2, 2, 2, 2, 7],
+               [3, 2, 2, 2, 2, 2, 3], [1, 2, 1, 3, 1, 2, 17]]
+BIG_SHAPES = [[300], [20, 30], [7, 8, 9], [2, 3, 4, 5, 6], [40, 41], [2, 3, 2, 3, 2, 3, 2]]
+PROV_SHAPES = [[4, 5], [3, 4, 5], [2, 3, 2, 3], [15, 14], [6, 7, 6], [2, 3, 4, 5, 2]]
 MASK_PATS = ['F', 'T', 'allF', 'allT', 'random', 'holes', 'border', 'single', 'axis0', 'bview', 'exact']
 DIGIT_OPTS = [('double', 'fpzip'), ('single', 'fpzip'), (8, 'fpzip'), (12.5, 'fpzip'), (3, 'fpzip'), (20, 'fpzip'),
               (5, 'smallest'), (6, 'smallest'), (10, 'smallest'), (8, 'largest'), (3, 'largest'), (14, 'largest'),
@@ -295,7 +371,7 @@ def rand_obj(rng, kind, shape, lossy=False, cls=None):
     if kind == 'float':
         name, numer = cls or rng.choice(FLOAT_CLASSES)
         dtype = 'float64' if (lossy or rng.random() < 0.8) else 'float32'
-        dist = rng.choice(LOSSY_DISTS if lossy else FLOAT_DISTS)
+        dist = rng.choice(LOSSY_DISTS + ['inf', 'nan'] if lossy else FLOAT_DISTS)
     elif kind == 'int':
         name, numer = cls or rng.choice(INT_CLASSES)
         dtype = rng.choice(INT_DTYPES)
@@ -308,7 +384,8 @@ def rand_obj(rng, kind, shape, lossy=False, cls=None):
     if kind == 'float' and name in ('Scalar', 'Vector3', 'Vector') and rng.random() < 0.12:
         denom = rng.choice([[2], [3], [2, 2]])
     o = {'cls': name, 'numer': list(numer), 'denom': denom, 'shape': list(shape), 'dtype': dtype, 'vdist': dist,
-         'vseed': rng.randrange(1 << 30), 'layout': rng.choice(['C', 'C', 'C', 'F', 'strided']), 'units': 0}
+         'vseed': rng.randrange(1 << 30), 'layout': rng.choice(['C', 'C'] + VALUE_LAYOUTS), 'units': 0,
+         'mlayout': rng.choice(['', '', 'F', 'strided', 'neg', 'perm01'])}
     if name in ('Scalar', 'Vector3', 'Pair', 'Vector', 'Matrix') and rng.random() < 0.3:
         o['units'] = rng.randrange(1, len(UNITS))
     if not shape and not numer and not denom and rng.random() < 0.7:
@@ -321,8 +398,9 @@ def rand_derivs(rng, o, lossy):
     nd = rng.choice([1, 1, 2, 3])
     for key in rng.sample(['t', 'xy', 'r', 'lon'], nd):
         d = {'cls': o['cls'], 'numer': o['numer'], 'denom': rng.choice([[], [], [2], [3], [2, 2]]), 'dtype': 'float64',
-             'vdist': rng.choice(LOSSY_DISTS if lossy else FLOAT_DISTS), 'vseed': rng.randrange(1 << 30),
-             'layout': rng.choice(['C', 'C', 'F', 'strided']), 'key': key, 'units': 0}
+             'vdist': rng.choice(LOSSY_DISTS + ['inf', 'nan'] if lossy else FLOAT_DISTS), 'vseed': rng.randrange(1 << 30),
+             'layout': rng.choice(['C'] + VALUE_LAYOUTS), 'key': key, 'units': 0,
+             'mlayout': rng.choice(['', 'F', 'strided'])}
         if o['cls'] in ('Matrix3', 'Quaternion', 'Matrix', 'Pair') and d['denom']:
             d['cls'] = {'Matrix3': 'Matrix', 'Quaternion': 'Vector', 'Matrix': 'Matrix', 'Pair': 'Vector'}[o['cls']]
         mm = rng.random()
@@ -360,10 +438,10 @@ def mk(case, idn):
     arr = isinstance(q._values_, np.ndarray)
     case['nontrivial'] = bool(arr and not np.all(q._mask_))
     size = int(np.prod(q._values_.shape, dtype=int)) if arr else 1
-    case['kind'] = '%s:%s:%s:%s%s%s%s' % (mode, o['dtype'], 'single' if o.get('single') else ('small' if size <= CUTOFF else 'big'),
+    case['kind'] = '%s:%s:%s:%s%s%s%s%s' % (mode, o['dtype'], 'single' if o.get('single') else ('small' if size <= CUTOFF else 'big'),
                                          o['mask'] if isinstance(o.get('mask', 'F'), str) else o['mask']['pat'],
                                          ':derivs' if case.get('derivs') else '', ':ro' if case.get('readonly') else '',
-                                         ':lossy' if lossy else '')
+                                         ':lossy' if lossy else '', ':post=' + '+'.join(case['post']) if case.get('post') else '')
     return case
 
 
@@ -427,11 +505,56 @@ def gen_cases(rng, tier):
                 derivs = rand_derivs(rng, o, True) if rng.random() < 0.4 else []
                 add(o, derivs=derivs, digits=digits, reference=reference, digits_first=rng.random() < 0.2,
                     readonly=rng.random() < 0.1)
+        # 4. operand provenance: every dtype x value layout x mask layout x object history (views, warm caches)
+        for dtype in INT_DTYPES + ['float64', 'float64', 'float32', 'bool']:
+            for lay in VALUE_LAYOUTS:
+                shape = rng.choice(PROV_SHAPES)
+                kind = 'int' if 'int' in dtype else 'bool' if dtype == 'bool' else 'float'
+                o = rand_obj(rng, kind, shape)
+                o['dtype'] = dtype
+                o['layout'] = lay
+                o.pop('single', None)
+                o['mask'] = rand_mask(rng, shape, rng.choice(['F', 'F', 'random', 'holes', 'border', 'bview', 'axis0']))
+                o['mlayout'] = rng.choice(['', 'F', 'strided', 'neg', 'perm01'])
+                post = rng.sample(POST_OPS, rng.choice([0, 1, 1, 2, 3]))
+                derivs = []
+                if kind == 'float' and o['cls'] not in ('Boolean',) and rng.random() < 0.5:
+                    o['denom'] = []
+                    derivs = rand_derivs(rng, o, False)
+                add(o, post=post, derivs=derivs, readonly=rng.random() < 0.15)
+        # 6. rank 0: single (Python scalar) values and shapeless items, masked and unmasked
+        for kindname in ('float', 'float', 'int', 'bool'):
+            for mk_ in ('F', 'T'):
+                for scalar in (True, False):
+                    o = rand_obj(rng, kindname, [])
+                    o['mask'] = mk_
+                    o['denom'] = []
+                    if scalar and not o['numer']:
+                        o['single'] = True
+                    else:
+                        o.pop('single', None)
+                    derivs = []
+                    if kindname == 'float' and rng.random() < 0.5:
+                        o['dtype'] = 'float64'
+                        derivs = rand_derivs(rng, o, False)
+                        for d in derivs:
+                            d['mask'] = rng.choice(['parent', 'F', 'T'])
+                            if not d['denom'] and not d['numer'] and rng.random() < 0.5:
+                                d['single'] = True
+                    add(o, derivs=derivs, readonly=rng.random() < 0.2)
+        # 5. the per-item transposition against NumPy
+        for _k in range(6):
+            isz, n = rng.choice([1, 2, 3, 4, 9]), rng.choice([0, 1, 2, 5, 17])
+            rows = [[rng.randrange(1000) for _ in range(isz)] for _ in range(n)]
+            cases.append({'id': 'cols%d' % len(cases), 'mode': 'cols', 'isz': isz, 'rows': rows, 'kind': 'cols',
+                          'nontrivial': n > 1 and isz > 1, 'req': ['c11', 'cols', isz, rows]})
     return cases
 
 
 def neighbours(case):
     """smaller / simpler variants of a case"""
+    if case.get('mode') == 'cols':
+        return
     o = case['obj']
     for shape in ([3], [2, 3], [201]):
         c = copy.deepcopy(case)
